@@ -511,9 +511,16 @@ func c04RandomBook(r *rand.Rand) gen.Book {
 	var b gen.Book
 	for i := 0; i < nrec; i++ {
 		rec := gen.Recipe{Name: gen.Name(r, no)}
+		if r.Intn(12) == 0 {
+			rec.Name = gen.SpecialName(r)
+		}
 		ne := r.Intn(maxEnts + 1)
 		for j := 0; j < ne; j++ {
-			rec.Ents = append(rec.Ents, gen.Ent{Name: gen.Name(r, no), Val: c04Num(r)})
+			en := gen.Name(r, no)
+			if r.Intn(12) == 0 {
+				en = gen.SpecialName(r)
+			}
+			rec.Ents = append(rec.Ents, gen.Ent{Name: en, Val: c04Num(r)})
 		}
 		if r.Intn(3) == 0 {
 			rec.Notes = gen.RandomNotes(r)
